@@ -462,6 +462,8 @@ struct Item {
     /// characterisation of the INPUT (e.g. "over32": an element needs more than 32 bits); used only
     /// by the guards of the known-finding deviations
     tags: Vec<String>,
+    /// size-class predicates of the codec ("fits in k bytes"), asked right after the write
+    fits: Vec<(usize, Box<dyn Fn() -> bool>)>,
 }
 
 /// Execute the items of one run under an interleaved write/read schedule.
@@ -492,6 +494,15 @@ fn run_items(cx: &mut Cx, subject: &str, items: Vec<Item>, rng: &mut Rng, cfg: V
                             Ok(c) => cx.ev(subject, json!({"op":"encoded_len","api":"predicted","v":it.v,"r":c})),
                             Err(m) => {
                                 cx.ev(subject, json!({"op":"panic","in":"encoded_len","codec":it.codec,"msg":m}));
+                                return;
+                            }
+                        }
+                    }
+                    for (k, f) in &it.fits {
+                        match guard(|| f()) {
+                            Ok(r) => cx.ev(subject, json!({"op":"fits_in","v":it.v,"k":k,"r":r})),
+                            Err(m) => {
+                                cx.ev(subject, json!({"op":"panic","in":"fits_in","codec":it.codec,"msg":m}));
                                 return;
                             }
                         }
@@ -552,6 +563,11 @@ fn u64_values(rng: &mut Rng) -> Vec<u64> {
         v.extend_from_slice(&[p - 1, p, p + 1]);
     }
     v.extend_from_slice(&[255, 256, 65535, 65536, (1u64 << 32) - 1, 1u64 << 32, (1u64 << 32) + 1, 1u64 << 56, (1u64 << 56) - 1]);
+    // byte-width boundaries (prefix-free length byte, group-varint selector)
+    for k in 1..=7u32 {
+        let p = 1u64 << (8 * k);
+        v.extend_from_slice(&[p - 1, p]);
+    }
     v.extend_from_slice(&[i64::MAX as u64, (i64::MAX as u64) + 1, u64::MAX - 1, u64::MAX]);
     for _ in 0..6 {
         let bits = rng.range(1, 64) as u32;
@@ -591,6 +607,9 @@ fn u64_seqs(rng: &mut Rng) -> Vec<Vec<u64>> {
         out.push((0..len).map(|i| 1_000_000 - (i as u64) * 777).collect());
         // below 2^32 (the domain group varint is chosen for)
         out.push((0..len).map(|_| rng.next() >> 33).collect());
+        // every selector width of group varint (1, 2, 3, 4 bytes), rotating
+        let widths = [0u64, 255, 256, 65535, 65536, (1 << 24) - 1, 1 << 24, u32::MAX as u64, 1, 0x1234, 0x12_3456, 0x1234_5678];
+        out.push((0..len).map(|i| widths[(i * 5 + len) % widths.len()]).collect());
         // large first differences
         out.push((0..len).map(|i| if i % 2 == 0 { 0 } else { u64::MAX }).collect());
         out.push((0..len).map(|i| if i % 2 == 0 { u64::MAX } else { 1 }).collect());
@@ -609,6 +628,9 @@ fn i64_seqs(rng: &mut Rng) -> Vec<Vec<i64>> {
         let base = rng.below(1000) as i64 - 500;
         out.push((0..len).map(|i| base + (i as i64) * 3).collect());
         out.push((0..len).map(|i| 500 - (i as i64) * 777).collect());
+        // zigzag images on both sides of the 1/2/3/4-byte group-varint widths
+        let zz = [0i64, -1, 127, -128, 128, -129, 32767, -32768, 32768, (1 << 23) - 1, -(1 << 23), 1 << 23, (1i64 << 31) - 1, -(1i64 << 31), 1i64 << 31];
+        out.push((0..len).map(|i| zz[(i * 4 + len) % zz.len()]).collect());
         out.push((0..len).map(|i| if i % 2 == 0 { i64::MIN } else { i64::MAX }).collect());
         out.push((0..len).map(|i| if i % 2 == 0 { i64::MAX } else { -1 }).collect());
         out.push((0..len).map(|_| rng.next() as i64).collect());
@@ -681,6 +703,7 @@ fn varint_items(variant: &str, rng: &mut Rng) -> Vec<Item> {
                     len_pred: Some(Box::new(move || VarInt::encoded_len(x))),
                     field: None,
                     tags: vec![],
+                    fits: vec![(1, Box::new(move || VarInt::fits_in_one_byte(x))), (2, Box::new(move || VarInt::fits_in_two_bytes(x)))],
                 });
             }
         }
@@ -699,6 +722,7 @@ fn varint_items(variant: &str, rng: &mut Rng) -> Vec<Item> {
                     len_pred: None,
                     field: None,
                     tags: vec![],
+                    fits: vec![],
                 });
             }
         }
@@ -719,6 +743,7 @@ fn varint_items(variant: &str, rng: &mut Rng) -> Vec<Item> {
                     len_pred: None,
                     field: None,
                     tags: vec![],
+                    fits: vec![],
                 });
             }
         }
@@ -753,6 +778,18 @@ fn seq_tags(s: &[u64]) -> Vec<String> {
     }
     t
 }
+/// the named constructor of a strategy (the decoders are built with VarIntEncoder::new)
+fn named_encoder(st: VarIntStrategy) -> VarIntEncoder {
+    match st {
+        VarIntStrategy::Leb128 => VarIntEncoder::leb128(),
+        VarIntStrategy::Zigzag => VarIntEncoder::zigzag(),
+        VarIntStrategy::Delta => VarIntEncoder::delta(),
+        VarIntStrategy::GroupVarint => VarIntEncoder::group_varint(),
+        VarIntStrategy::PrefixFree => VarIntEncoder::prefix_free(),
+        VarIntStrategy::Compact => VarIntEncoder::compact(),
+        VarIntStrategy::Simd => VarIntEncoder::simd(),
+    }
+}
 fn enc_items(st: VarIntStrategy, kind: &str, rng: &mut Rng) -> Vec<Item> {
     let name = strat_name(st);
     let mut items = vec![];
@@ -765,13 +802,14 @@ fn enc_items(st: VarIntStrategy, kind: &str, rng: &mut Rng) -> Vec<Item> {
                     unordered: false,
                     exact: false,
                     enc: Box::new(move |b| {
-                        b.extend_from_slice(&VarIntEncoder::new(st).encode_u64(x).map_err(es)?);
+                        b.extend_from_slice(&named_encoder(st).encode_u64(x).map_err(es)?);
                         Ok(None)
                     }),
                     dec: Box::new(move |d| VarIntEncoder::new(st).decode_u64(d).map(|(y, c)| (vec![y.to_string()], Some(c))).map_err(es)),
                     len_pred: None,
                     field: None,
                     tags: vec![],
+                    fits: vec![],
                 });
             }
         }
@@ -783,13 +821,14 @@ fn enc_items(st: VarIntStrategy, kind: &str, rng: &mut Rng) -> Vec<Item> {
                     unordered: false,
                     exact: false,
                     enc: Box::new(move |b| {
-                        b.extend_from_slice(&VarIntEncoder::new(st).encode_i64(x).map_err(es)?);
+                        b.extend_from_slice(&named_encoder(st).encode_i64(x).map_err(es)?);
                         Ok(None)
                     }),
                     dec: Box::new(move |d| VarIntEncoder::new(st).decode_i64(d).map(|(y, c)| (vec![y.to_string()], Some(c))).map_err(es)),
                     len_pred: None,
                     field: None,
                     tags: vec![],
+                    fits: vec![],
                 });
             }
         }
@@ -802,13 +841,14 @@ fn enc_items(st: VarIntStrategy, kind: &str, rng: &mut Rng) -> Vec<Item> {
                     unordered: false,
                     exact: false,
                     enc: Box::new(move |b| {
-                        b.extend_from_slice(&VarIntEncoder::new(st).encode_u64_sequence(&s2).map_err(es)?);
+                        b.extend_from_slice(&named_encoder(st).encode_u64_sequence(&s2).map_err(es)?);
                         Ok(None)
                     }),
                     dec: Box::new(move |d| VarIntEncoder::new(st).decode_u64_sequence(d).map(|y| (y.pv(), None)).map_err(es)),
                     len_pred: None,
                     field: None,
                     tags: seq_tags(&s),
+                    fits: vec![],
                 });
             }
         }
@@ -821,13 +861,14 @@ fn enc_items(st: VarIntStrategy, kind: &str, rng: &mut Rng) -> Vec<Item> {
                     unordered: false,
                     exact: false,
                     enc: Box::new(move |b| {
-                        b.extend_from_slice(&VarIntEncoder::new(st).encode_i64_sequence(&s2).map_err(es)?);
+                        b.extend_from_slice(&named_encoder(st).encode_i64_sequence(&s2).map_err(es)?);
                         Ok(None)
                     }),
                     dec: Box::new(move |d| VarIntEncoder::new(st).decode_i64_sequence(d).map(|y| (y.pv(), None)).map_err(es)),
                     len_pred: None,
                     field: None,
                     tags: seq_tags(&s.iter().map(|&x| x as u64).collect::<Vec<_>>()),
+                    fits: vec![],
                 });
             }
         }
@@ -843,6 +884,15 @@ fn auto_items(signed: bool, rng: &mut Rng) -> Vec<Item> {
         seqs.push((0..20).map(|i| i * 3).collect());
         seqs.push((0..20).map(|i| (i * 0x1_0000_0001u64) ^ 0xffff).collect());
         seqs.push((0..17).map(|i| if i == 16 { (1u64 << 32) - 1 } else { i }).collect());
+        // on both sides of every threshold of the chooser: 16 elements below / at 2^32, sorted runs of 6 / 7
+        seqs.push((0..15).map(|i| 1000 - i * 3).collect());
+        seqs.push((0..16).map(|i| 1000 - i * 3).collect());
+        seqs.push((0..16).map(|i| if i == 3 { 1u64 << 32 } else { 500 - i }).collect());
+        seqs.push((0..6).map(|i| i * 1000).collect());
+        seqs.push((0..7).map(|i| i * 1000).collect());
+        seqs.push((0..7).map(|i| i * (1u64 << 61)).collect());
+        seqs.push((0..5).map(|i| 255 - i).collect());
+        seqs.push((0..5).map(|i| 256 - i).collect());
         for s in seqs {
             let st = choose_optimal_strategy(&s);
             let s2 = s.clone();
@@ -859,12 +909,18 @@ fn auto_items(signed: bool, rng: &mut Rng) -> Vec<Item> {
                 len_pred: None,
                 field: None,
                 tags: seq_tags(&s),
+                fits: vec![],
             });
         }
     } else {
         let mut seqs = i64_seqs(rng);
         seqs.push((0..20).map(|i| i * 3 - 30).collect());
         seqs.push((0..8).map(|i| i64::MIN / 2 + i * (i64::MAX / 4)).collect());
+        seqs.push((0..5).map(|i| i * 100 - 200).collect());
+        seqs.push((0..6).map(|i| i * 100 - 200).collect());
+        seqs.push((0..6).map(|i| i64::MIN + i * (i64::MAX / 3)).collect());
+        seqs.push((0..4).map(|i| 255 - i).collect());
+        seqs.push((0..4).map(|i| 256 - i).collect());
         for s in seqs {
             let st = choose_optimal_strategy_signed(&s);
             let s2 = s.clone();
@@ -881,6 +937,7 @@ fn auto_items(signed: bool, rng: &mut Rng) -> Vec<Item> {
                 len_pred: None,
                 field: None,
                 tags: seq_tags(&s.iter().map(|&x| x as u64).collect::<Vec<_>>()),
+                fits: vec![],
             });
         }
     }
@@ -907,8 +964,28 @@ fn simd_seqs(rng: &mut Rng, thorough: bool) -> Vec<Vec<u64>> {
 fn simd_items(variant: &str, rng: &mut Rng, thorough: bool) -> Vec<Item> {
     let mut items = vec![];
     match variant {
-        "single" | "global_single" => {
+        "single" | "global_single" | "global_codec_single" => {
             let global = variant == "global_single";
+            if variant == "global_codec_single" {
+                for x in u64_values(rng) {
+                    items.push(Item {
+                        codec: "simd:global_codec_single".into(),
+                        v: vec![x.to_string()],
+                        unordered: false,
+                        exact: false,
+                        enc: Box::new(move |b| {
+                            b.extend_from_slice(&zipora::io::simd_encoding::varint::get_global_varint_codec().encode_single(x).map_err(es)?);
+                            Ok(None)
+                        }),
+                        dec: Box::new(|d| zipora::io::simd_encoding::varint::get_global_varint_codec().decode_single(d).map(|(y, c)| (vec![y.to_string()], Some(c))).map_err(es)),
+                        len_pred: None,
+                        field: None,
+                        tags: vec![],
+                        fits: vec![],
+                    });
+                }
+                return items;
+            }
             for x in u64_values(rng) {
                 items.push(Item {
                     codec: format!("simd:{variant}"),
@@ -927,6 +1004,7 @@ fn simd_items(variant: &str, rng: &mut Rng, thorough: bool) -> Vec<Item> {
                     len_pred: None,
                     field: None,
                     tags: vec![],
+                    fits: vec![],
                 });
             }
         }
@@ -960,6 +1038,7 @@ fn simd_items(variant: &str, rng: &mut Rng, thorough: bool) -> Vec<Item> {
                     len_pred: None,
                     field: None,
                     tags: vec![],
+                    fits: vec![],
                 });
             }
         }
@@ -1017,7 +1096,13 @@ fn endian_item<T: EndianConvert + P + 'static>(tname: &str, ename: &str, e: Endi
         exact: false,
         enc: Box::new(move |b| {
             let mut buf = vec![0xA5u8; sz];
-            EndianIO::<T>::new(e).write_to_bytes(x, &mut buf).map_err(es)?;
+            // the named constructors on the writing side, EndianIO::new on the reading side
+            let io = match e {
+                Endianness::Little => EndianIO::<T>::little_endian(),
+                Endianness::Big => EndianIO::<T>::big_endian(),
+                Endianness::Native => EndianIO::<T>::native_endian(),
+            };
+            io.write_to_bytes(x, &mut buf).map_err(es)?;
             b.extend_from_slice(&buf);
             Ok(None)
         }),
@@ -1025,6 +1110,7 @@ fn endian_item<T: EndianConvert + P + 'static>(tname: &str, ename: &str, e: Endi
         len_pred: None,
         field: None,
         tags: vec![],
+        fits: vec![],
     }
 }
 fn endian_items(ename: &str, e: Endianness, rng: &mut Rng) -> Vec<Item> {
@@ -1059,6 +1145,18 @@ fn endian_slices(cx: &mut Cx, rng: &mut Rng) {
     let subject = "endian:slices";
     cx.reset(subject, json!({}));
     for (ename, e) in [("little", Endianness::Little), ("big", Endianness::Big), ("native", Endianness::Native)] {
+        // the predicates the bulk conversions branch on, against the scalar conversion itself
+        let swaps = 0x0102u16.to_endian(e) != 0x0102;
+        let named = match e {
+            Endianness::Little => EndianIO::<u16>::little_endian(),
+            Endianness::Big => EndianIO::<u16>::big_endian(),
+            Endianness::Native => EndianIO::<u16>::native_endian(),
+        };
+        cx.ev(subject, json!({"op":"batch_eq","what":format!("Endianness::needs_conversion {ename} vs to_endian changes 0x0102"),"batch":e.needs_conversion(),"scalar":swaps}));
+        cx.ev(subject, json!({"op":"batch_eq","what":format!("Endianness::is_native {ename} vs to_endian keeps 0x0102"),"batch":e.is_native(),"scalar":!swaps}));
+        cx.ev(subject, json!({"op":"batch_eq","what":format!("EndianIO::needs_conversion {ename}"),"batch":named.needs_conversion(),"scalar":swaps}));
+        cx.ev(subject, json!({"op":"batch_eq","what":format!("named constructor {ename} vs EndianIO::new: endianness()"),"batch":format!("{:?}", named.endianness()),"scalar":format!("{:?}", e)}));
+        cx.ev(subject, json!({"op":"batch_eq","what":"Endianness::native is native","batch":Endianness::native().is_native(),"scalar":true}));
         for len in [0usize, 1, 3, 7, 8, 9, 16, 17] {
             let vals: Vec<u32> = (0..len).map(|_| rng.next() as u32).collect();
             let io = EndianIO::<u32>::new(e);
@@ -1122,6 +1220,7 @@ fn endian_magic_items() -> Vec<Item> {
             len_pred: None,
             field: None,
             tags: vec![],
+            fits: vec![],
         });
     }
     it
@@ -1164,6 +1263,7 @@ fn to_item(d: &DItem) -> Item {
         len_pred: None,
         field: d.field.clone(),
         tags: d.tags.clone(),
+        fits: vec![],
     }
 }
 fn ditem(codec: &str, v: Vec<String>, enc: DEnc, dec: DDec) -> DItem {
@@ -1183,11 +1283,21 @@ fn prim_ditems(rng: &mut Rng, big: bool) -> Vec<DItem> {
     }
     let mut lens = vec![0usize, 1, 2, 127, 128, 129, 300];
     if big {
-        lens.extend_from_slice(&[16383, 16384, 16385, 70000]);
+        lens.extend_from_slice(&[16383, 16384, 16385, 70000, 2_097_151, 2_097_152]);
     }
     for n in lens {
         let b = rng.bytes(n);
         let (b1, b2, b3) = (b.clone(), b.clone(), b.clone());
+        if n >= 1 << 21 {
+            // only the length prefix matters here (3 -> 4 byte varint)
+            it.push(ditem(
+                "dio:lp_bytes",
+                vec![dg(&b)],
+                Rc::new(move |o| o.write_length_prefixed_bytes(&b3).map_err(es)),
+                Rc::new(|i| i.read_length_prefixed_bytes().map(|y| vec![dg(&y)]).map_err(es)),
+            ));
+            continue;
+        }
         it.push(ditem("dio:bytes/read_vec", vec![dg(&b)], Rc::new(move |o| o.write_bytes(&b1).map_err(es)), Rc::new(move |i| i.read_vec(n).map(|y| vec![dg(&y)]).map_err(es))));
         it.push(ditem(
             "dio:bytes/read_bytes",
@@ -1359,6 +1469,7 @@ fn complex_serializer_items(cfgname: &'static str, rng: &mut Rng) -> Vec<Item> {
             len_pred: None,
             field: None,
             tags: vec![],
+            fits: vec![],
         }
     }
     fn batch<T: ComplexSerialize + P + Clone + 'static>(codec: String, xs: Vec<T>, mk: impl Fn() -> ComplexTypeSerializer + Clone + 'static) -> Item {
@@ -1377,6 +1488,7 @@ fn complex_serializer_items(cfgname: &'static str, rng: &mut Rng) -> Vec<Item> {
             len_pred: None,
             field: None,
             tags: vec![],
+            fits: vec![],
         }
     }
     for k in 0..8 {
@@ -1467,6 +1579,7 @@ fn smart_weak_items(rng: &mut Rng) -> Vec<Item> {
             len_pred: None,
             field: None,
             tags: vec![],
+            fits: vec![],
         });
         let astrong = Arc::new(rng.next());
         let aweak = Arc::downgrade(&astrong);
@@ -1491,6 +1604,7 @@ fn smart_weak_items(rng: &mut Rng) -> Vec<Item> {
             len_pred: None,
             field: None,
             tags: vec![],
+            fits: vec![],
         });
     }
     it
@@ -1505,6 +1619,32 @@ fn smart_ctx_items(rng: &mut Rng, temp: bool, cycle_detection: bool) -> Vec<Item
     let pool: Vec<Rc<String>> = (0..4).map(|k| Rc::new(format!("shared-{k}-{}", rng.below(1000)))).collect();
     let mut it = vec![];
     for k in 0..14usize {
+        if !temp && (k == 5 || k == 9) {
+            // SerializationContext::clear / DeserializationContext::clear at the same point of the
+            // stream: what follows must be self-contained again (ids restart, no dangling back reference)
+            let (sc, dc) = (sctx.clone(), dctx.clone());
+            it.push(Item {
+                codec: "smart:ctx/clear".into(),
+                v: vec!["ctx-clear".into()],
+                unordered: false,
+                exact: false,
+                enc: Box::new(move |_b| {
+                    sc.borrow_mut().clear();
+                    Ok(Some(0))
+                }),
+                dec: Box::new(move |_d| {
+                    dc.borrow_mut().clear();
+                    if dc.borrow().get_object(1).is_some() {
+                        return Err("object 1 survives clear()".into());
+                    }
+                    Ok((vec!["ctx-clear".into()], Some(0)))
+                }),
+                len_pred: None,
+                field: None,
+                tags: vec![],
+                fits: vec![],
+            });
+        }
         let val: Rc<String> = if temp { Rc::new(format!("temp-{k}-{}", rng.below(1000))) } else { pool[(rng.below(4)) as usize].clone() };
         let text: String = (*val).clone();
         let (sc, dc) = (sctx.clone(), dctx.clone());
@@ -1532,6 +1672,7 @@ fn smart_ctx_items(rng: &mut Rng, temp: bool, cycle_detection: bool) -> Vec<Item
             len_pred: None,
             field: None,
             tags: vec![],
+            fits: vec![],
         });
     }
     it
@@ -1565,6 +1706,7 @@ fn smart_serializer_items(cfgname: &'static str, rng: &mut Rng) -> Vec<Item> {
             len_pred: None,
             field: None,
             tags: vec![],
+            fits: vec![],
         }
     }
     for k in 0..6 {
@@ -1646,7 +1788,7 @@ fn version_ditems(variant: &str, rng: &mut Rng) -> Vec<DItem> {
                     "ver:proxy-as-value",
                     x.pv(),
                     Rc::new(move |o| VersionProxy::new(x, Version::new(1, 0, 0)).serialize(&mut DynOut(o)).map_err(es)),
-                    Rc::new(|i| <VersionProxy<u64> as SerializableType>::deserialize(&mut DynIn(i)).map(|p| p.data().pv()).map_err(es)),
+                    Rc::new(|i| <VersionProxy<u64> as SerializableType>::deserialize(&mut DynIn(i)).map(|p| p.into_data().pv()).map_err(es)),
                 ));
             }
         }
@@ -1731,7 +1873,24 @@ fn version_ditems(variant: &str, rng: &mut Rng) -> Vec<DItem> {
                                 };
                                 VersionManager::new(cur).serialize_proxy(&p, &mut DynOut(o)).map_err(es)
                             }),
-                            Rc::new(move |i| VersionManager::new(cur).deserialize_proxy::<u64, _>(min, &mut DynIn(i)).map(|y| y.map(|p| *p.data()).pv()).map_err(es)),
+                            Rc::new(move |i| {
+                                VersionManager::new(cur)
+                                    .deserialize_proxy::<u64, _>(min, &mut DynIn(i))
+                                    .map(|y| {
+                                        y.map(|mut p| {
+                                            // three accessors of the same payload
+                                            let a = *p.data();
+                                            let b = *p.data_mut();
+                                            let c = p.into_data();
+                                            if a != b || b != c {
+                                                panic!("VersionProxy accessors disagree");
+                                            }
+                                            c
+                                        })
+                                        .pv()
+                                    })
+                                    .map_err(es)
+                            }),
                         );
                         d.field = Some(fld);
                         it.push(d);
@@ -1754,6 +1913,114 @@ fn version_ditems(variant: &str, rng: &mut Rng) -> Vec<DItem> {
         }
     }
     rng.shuffle(&mut it);
+    it
+}
+/// the predicates the versioned-field mechanism is built from; TLC evaluates the definitions
+fn version_preds(cx: &mut Cx) {
+    let subject = "ver:preds";
+    cx.reset(subject, json!({}));
+    let vs = [
+        Version::new(0, 0, 0), Version::new(1, 0, 0), Version::new(1, 0, 1), Version::new(1, 1, 0), Version::new(1, 2, 0), Version::new(1, 2, 7),
+        Version::new(1, 3, 0), Version::new(2, 0, 0), Version::new(2, 1, 0), Version::new(0, 9, 9), Version::new(1, 255, 0), Version::new(1, 0, 65535),
+    ];
+    let mut n = 0usize;
+    for &a in &vs {
+        for &b in &vs {
+            cx.ev(subject, json!({"op":"ver_pred","kind":"supports","api":"Version::supports_feature","a":vj(a),"b":vj(b),"mx":[],"r":a.supports_feature(&b)}));
+            cx.ev(subject, json!({"op":"ver_pred","kind":"compatible","api":"Version::is_compatible_with","a":vj(a),"b":vj(b),"mx":[],"r":a.is_compatible_with(&b)}));
+            // the manager: current version a, field registered at b
+            let mut m = VersionManager::new(a);
+            m.register_field("f", b);
+            cx.ev(subject, json!({"op":"ver_pred","kind":"supports","api":"should_serialize_field","a":vj(a),"b":vj(b),"mx":[],"r":m.should_serialize_field("f")}));
+            cx.ev(subject, json!({"op":"ver_pred","kind":"supports","api":"should_deserialize_field (no reading version)","a":vj(m.reading_version()),"b":vj(b),"mx":[],"r":m.should_deserialize_field("f")}));
+            let rv = vs[(n * 5 + 3) % vs.len()];
+            m.set_reading_version(rv);
+            cx.ev(subject, json!({"op":"ver_pred","kind":"supports","api":"should_deserialize_field","a":vj(m.reading_version()),"b":vj(b),"mx":[],"r":m.should_deserialize_field("f")}));
+            cx.ev(subject, json!({"op":"batch_eq","what":"reading_version() after set_reading_version","batch":vj(m.reading_version()),"scalar":vj(rv)}));
+            cx.ev(subject, json!({"op":"batch_eq","what":"current_version()","batch":vj(m.current_version()),"scalar":vj(a)}));
+            cx.ev(subject, json!({"op":"batch_eq","what":"unregistered field is serialised","batch":m.should_serialize_field("other") && m.should_deserialize_field("other"),"scalar":true}));
+            // proxies: version a, lower bound b, optional upper bound
+            cx.ev(subject, json!({"op":"ver_pred","kind":"proxy","api":"VersionProxy::should_serialize","a":vj(a),"b":vj(b),"mx":[],"r":VersionProxy::new(0u8, b).should_serialize(&a)}));
+            let mx = vs[(n * 7 + 1) % vs.len()];
+            cx.ev(subject, json!({"op":"ver_pred","kind":"proxy","api":"VersionProxy::should_serialize (range)","a":vj(a),"b":vj(b),"mx":[vj(mx)],"r":VersionProxy::with_range(0u8, b, mx).should_serialize(&a)}));
+            n += 1;
+            cx.case(subject, &format!("{a}/{b}"));
+        }
+    }
+}
+
+/// an older layout of VRec (no `extra` field), version 1.0.0 / 1.1.0
+#[derive(Clone, Debug)]
+struct VRecOld<const MINOR: u16> {
+    id: u32,
+    name: String,
+}
+impl<const MINOR: u16> VersionedSerialize for VRecOld<MINOR> {
+    fn current_version() -> Version {
+        Version::new(1, MINOR, 0)
+    }
+    fn serialize_with_manager<O: DataOutput>(&self, m: &mut VersionManager, o: &mut O) -> ZResult<()> {
+        m.serialize_field("id", &self.id, o)?;
+        m.serialize_field("name", &self.name, o)
+    }
+    fn deserialize_with_manager<I: DataInput>(m: &mut VersionManager, i: &mut I) -> ZResult<Self> {
+        let id = m.deserialize_field::<u32, _>("id", i)?.unwrap_or(0);
+        let name = m.deserialize_field::<String, _>("name", i)?.unwrap_or_default();
+        Ok(VRecOld { id, name })
+    }
+}
+/// data stored by an older version is read by the current one through registered migrations
+/// (one step 1.1.0 -> 1.2.0, two steps 1.0.0 -> 1.1.0 -> 1.2.0, and the identity)
+fn migration_items(rng: &mut Rng) -> Vec<Item> {
+    const EXTRA: u64 = 0x0102_0304_0506_0708;
+    let mk = || {
+        let mut s = VersionedSerializer::new(VersionConfig::flexible());
+        // 1.0.0 -> 1.1.0: same layout
+        s.register_migration(Version::new(1, 0, 0), Version::new(1, 1, 0), |d| Ok(d.to_vec()));
+        // 1.1.0 -> 1.2.0: the field `extra` (present marker + u64) is appended with its default
+        s.register_migration(Version::new(1, 1, 0), Version::new(1, 2, 0), |d| {
+            let mut o = VecDataOutput::new();
+            o.write_bytes(d)?;
+            o.write_u8(1)?;
+            o.write_u64(EXTRA)?;
+            Ok(o.into_vec())
+        });
+        s
+    };
+    let strs = test_strings(rng, false);
+    let us = u64_values(rng);
+    let mut it = vec![];
+    for k in 0..9usize {
+        let (id, name) = (us[k * 3 + 2] as u32, strs[k % strs.len()].clone());
+        let logical = VRec { id, name: name.clone(), extra: Some(if k % 3 == 2 { us[k] } else { EXTRA }) };
+        let (n1, n2) = (name.clone(), name.clone());
+        let ex = logical.extra;
+        it.push(Item {
+            codec: format!("ver:migration/{}", ["from-1.0.0", "from-1.1.0", "current"][k % 3]),
+            v: logical.pv(),
+            unordered: false,
+            exact: true,
+            enc: Box::new(move |b| {
+                let s = mk();
+                let bytes = match k % 3 {
+                    0 => s.serialize_to_bytes(&VRecOld::<0> { id, name: n1.clone() }),
+                    1 => s.serialize_to_bytes(&VRecOld::<1> { id, name: n1.clone() }),
+                    _ => s.serialize_to_bytes(&VRec { id, name: n1.clone(), extra: ex }),
+                }
+                .map_err(es)?;
+                b.extend_from_slice(&bytes);
+                Ok(None)
+            }),
+            dec: Box::new(move |d| {
+                let _ = &n2;
+                mk().deserialize_from_bytes::<VRec>(d).map(|y| (y.pv(), None)).map_err(es)
+            }),
+            len_pred: None,
+            field: None,
+            tags: vec![],
+            fits: vec![],
+        });
+    }
     it
 }
 fn versioned_serializer_items(cfgname: &'static str, rng: &mut Rng) -> Vec<Item> {
@@ -1783,6 +2050,7 @@ fn versioned_serializer_items(cfgname: &'static str, rng: &mut Rng) -> Vec<Item>
             len_pred: None,
             field: None,
             tags: vec![],
+            fits: vec![],
         });
     }
     it
@@ -1804,6 +2072,8 @@ const DIO_PAIRS: &[(&str, &str)] = &[
     ("file", "mmapdi"),
     ("file", "mminput"),
     ("to_file", "from_file"),
+    ("to_file_append", "reader_file"),
+    ("vec_cleared", "slice"),
     ("file_append", "reader_bufreader"),
     ("mmapout", "mminput"),
     ("mmapout", "mmapdi"),
@@ -1849,9 +2119,21 @@ impl Out {
                 let p = cx.path("dio");
                 Out::File(FileDataOutput::create(&p).map_err(es)?, p)
             }
-            "to_file" => {
+            "to_file" | "to_file_append" => {
                 let p = cx.path("dio");
                 Out::File(zipora::io::to_file(&p).map_err(es)?, p)
+            }
+            "vec_cleared" => {
+                // bytes written before clear() must not reach the image
+                let mut o = VecDataOutput::with_capacity(3);
+                o.write_u64(0xDEAD_BEEF_DEAD_BEEF).map_err(es)?;
+                o.write_length_prefixed_string("stale").map_err(es)?;
+                o.reserve(100);
+                o.clear();
+                if !o.is_empty() || o.len() != 0 {
+                    panic!("VecDataOutput not empty after clear()");
+                }
+                Out::Vec(o)
             }
             "mmapout" => {
                 let p = cx.path("dio");
@@ -1864,7 +2146,7 @@ impl Out {
             "writer_zcw" => Out::Zcw(WriterDataOutput::new(ZeroCopyWriter::with_capacity(Vec::new(), 16).map_err(es)?)),
             _ => {
                 // a window of a larger sink, surrounded by padding that must stay untouched
-                let cap = 400_000usize;
+                let cap = 12_000_000usize;
                 let sink = vec![0xEEu8; cap + 2 * RANGE_PAD];
                 Out::Rng(WriterDataOutput::new(RangeWriter::new_and_seek(Cursor::new(sink), RANGE_PAD as u64, cap as u64).map_err(es)?))
             }
@@ -1907,7 +2189,11 @@ impl Out {
             }
             Out::File(mut o, p) => {
                 DataOutput::flush(&mut o).map_err(es)?;
-                o.sync_all().map_err(es)?;
+                if o.bytes_written() % 2 == 0 {
+                    o.sync_all().map_err(es)?;
+                } else {
+                    o.sync_data().map_err(es)?;
+                }
                 drop(o);
                 Image::File(p)
             }
@@ -1935,6 +2221,47 @@ impl Out {
     }
 }
 
+/// MemoryMappedInput keeps its position in an inherent method (the trait default says None):
+/// pure forwarding, position() exposes the implementation's own counter
+struct MmPos(MemoryMappedInput);
+impl DataInput for MmPos {
+    fn read_u8(&mut self) -> ZResult<u8> {
+        self.0.read_u8()
+    }
+    fn read_u16(&mut self) -> ZResult<u16> {
+        self.0.read_u16()
+    }
+    fn read_u32(&mut self) -> ZResult<u32> {
+        self.0.read_u32()
+    }
+    fn read_u64(&mut self) -> ZResult<u64> {
+        self.0.read_u64()
+    }
+    fn read_var_int(&mut self) -> ZResult<u64> {
+        self.0.read_var_int()
+    }
+    fn read_bytes(&mut self, b: &mut [u8]) -> ZResult<()> {
+        self.0.read_bytes(b)
+    }
+    fn read_vec(&mut self, n: usize) -> ZResult<Vec<u8>> {
+        self.0.read_vec(n)
+    }
+    fn read_length_prefixed_bytes(&mut self) -> ZResult<Vec<u8>> {
+        self.0.read_length_prefixed_bytes()
+    }
+    fn read_string(&mut self, n: usize) -> ZResult<String> {
+        self.0.read_string(n)
+    }
+    fn read_length_prefixed_string(&mut self) -> ZResult<String> {
+        self.0.read_length_prefixed_string()
+    }
+    fn skip(&mut self, n: usize) -> ZResult<()> {
+        DataInput::skip(&mut self.0, n)
+    }
+    fn position(&self) -> Option<u64> {
+        Some(self.0.position() as u64)
+    }
+}
 /// reader back ends over an image; pos() = the implementation's own position, if it has one
 fn make_input(cx: &mut Cx, kind: &str, img: &Image) -> Result<(Box<dyn DataInput>, bool), String> {
     let file_of = |cx: &mut Cx, img: &Image| -> Result<PathBuf, String> {
@@ -1957,7 +2284,7 @@ fn make_input(cx: &mut Cx, kind: &str, img: &Image) -> Result<(Box<dyn DataInput
         "reader_bufreader" => (Box::new(ReaderDataInput::new(io::BufReader::with_capacity(5, File::open(file_of(cx, img)?).map_err(es)?))), true),
         "mmapdi" => (Box::new(MmapDataInput::open(file_of(cx, img)?).map_err(es)?), true),
         "from_file" => (Box::new(zipora::io::from_file(file_of(cx, img)?).map_err(es)?), true),
-        "mminput" => (Box::new(MemoryMappedInput::from_path(file_of(cx, img)?).map_err(es)?), false),
+        "mminput" => (Box::new(MmPos(MemoryMappedInput::from_path(file_of(cx, img)?).map_err(es)?)), true),
         "range" => {
             let b = img.bytes();
             let mut padded = vec![0x77u8; RANGE_PAD];
@@ -1989,7 +2316,7 @@ fn run_dio_pair(cx: &mut Cx, okind: &str, ikind: &str, items: &[DItem], setname:
         }
     };
     // file_append: the image is produced by two FileDataOutput sessions, the second one appending
-    let split = if okind == "file_append" { items.len() / 2 } else { usize::MAX };
+    let split = if okind == "file_append" || okind == "to_file_append" { items.len() / 2 } else { usize::MAX };
     let mut recs: Vec<(usize, u64)> = vec![];
     let mut base = 0u64;
     for (ix, it) in items.iter().enumerate() {
@@ -1997,7 +2324,7 @@ fn run_dio_pair(cx: &mut Cx, okind: &str, ikind: &str, items: &[DItem], setname:
             if let Out::File(mut o, p) = out {
                 let _ = DataOutput::flush(&mut o);
                 drop(o);
-                match FileDataOutput::append(&p).map_err(es) {
+                match if okind == "to_file_append" { zipora::io::to_file_append(&p) } else { FileDataOutput::append(&p) }.map_err(es) {
                     Ok(o2) => {
                         // the append session starts counting at the current file length
                         base = 0;
@@ -2035,6 +2362,15 @@ fn run_dio_pair(cx: &mut Cx, okind: &str, ikind: &str, items: &[DItem], setname:
                 return;
             }
         }
+    }
+    // the trait-level counters agree with the inherent one
+    let cnt = out.count();
+    let (tp, tb) = (out.dout().position(), out.dout().bytes_written());
+    if let Some(p) = tp {
+        cx.ev(&subject, json!({"op":"batch_eq","what":"DataOutput::position vs inherent counter","batch":p,"scalar":cnt}));
+    }
+    if let Some(p) = tb {
+        cx.ev(&subject, json!({"op":"batch_eq","what":"DataOutput::bytes_written vs inherent counter","batch":p,"scalar":cnt}));
     }
     let img = match guard(|| out.finish()) {
         Ok(Ok(i)) => i,
@@ -2156,6 +2492,31 @@ trait View {
     fn remaining(&mut self) -> Option<u64> {
         None
     }
+    /// a third read API with the contract of read (read_bulk)
+    fn read3(&mut self, _k: usize) -> Option<Result<Vec<u8>, String>> {
+        None
+    }
+    /// a second look-ahead API (peek_slice_zero_copy, ensure_buffered / zc_ensure + look)
+    fn peek2(&mut self, _k: usize) -> Option<Result<Option<Vec<u8>>, String>> {
+        None
+    }
+    /// "nothing is left" observers (is_at_end, !has_more, !has_remaining)
+    fn at_end(&mut self) -> Option<bool> {
+        None
+    }
+    /// length of the view as the implementation reports it (range_length, total_length, len)
+    fn vlen(&mut self) -> Option<u64> {
+        None
+    }
+    /// exact reads (exact, exact2 if `.1`) and skips are TOTAL on this back end: inside the view
+    /// they cannot fail (slice / mmap / range readers)
+    fn total(&self) -> (bool, bool) {
+        (false, false)
+    }
+    /// back to the start of the view (RangeReader::reset)
+    fn rewind(&mut self) -> Option<Result<u64, String>> {
+        None
+    }
     /// a refused skip has consumed an unspecified number of bytes (streaming skip that reads and
     /// discards, like read_exact): the driver ends the run there
     fn skip_err_unspecified(&self) -> bool {
@@ -2166,7 +2527,7 @@ fn rd<R: Read>(r: &mut R, k: usize) -> Result<Vec<u8>, String> {
     let mut buf = vec![0u8; k];
     let n = r.read(&mut buf).map_err(es)?;
     if n > k {
-        return Err(format!("read returned {n} > {k}"));
+        panic!("read returned {n} > {k}");
     }
     buf.truncate(n);
     Ok(buf)
@@ -2199,15 +2560,39 @@ impl<R: Read + Seek> View for RangeV<R> {
         Some(self.0.seek(sf(w, o)).map_err(es))
     }
     fn pos(&mut self) -> Option<u64> {
-        DataInput::position(&self.0)
+        // two observers of the same quantity, alternating
+        if self.0.current_position() % 2 == 0 {
+            DataInput::position(&self.0)
+        } else {
+            Some(self.0.current_position() - self.0.start_position())
+        }
     }
     fn remaining(&mut self) -> Option<u64> {
-        Some(self.0.remaining())
+        Some(if self.0.remaining() % 2 == 0 { self.0.remaining() } else { self.0.end_position() - self.0.current_position() })
+    }
+    fn at_end(&mut self) -> Option<bool> {
+        let (a, b) = (self.0.is_at_end(), DataInput::has_remaining(&self.0) == Some(false));
+        if a != b {
+            panic!("is_at_end() = {a} but has_remaining() = {:?}", DataInput::has_remaining(&self.0));
+        }
+        Some(a)
+    }
+    fn vlen(&mut self) -> Option<u64> {
+        Some(self.0.range_length())
+    }
+    fn total(&self) -> (bool, bool) {
+        (true, false)
+    }
+    fn rewind(&mut self) -> Option<Result<u64, String>> {
+        Some(self.0.reset().map(|_| self.0.current_position() - self.0.start_position()).map_err(es))
     }
 }
 /// RangeReader over a non-seekable inner reader that delivers short reads
 struct RangeC(RangeReader<Chunked<Cursor<Vec<u8>>>>);
 impl View for RangeC {
+    fn total(&self) -> (bool, bool) {
+        (true, false)
+    }
     fn read(&mut self, k: usize) -> Option<Result<Vec<u8>, String>> {
         Some(rd(&mut self.0, k))
     }
@@ -2230,12 +2615,52 @@ impl View for MultiV {
     fn read(&mut self, k: usize) -> Option<Result<Vec<u8>, String>> {
         Some(rd(&mut self.0, k))
     }
+    fn vlen(&mut self) -> Option<u64> {
+        Some(self.0.total_length())
+    }
 }
 struct BufV<R: Read> {
     r: StreamBufferedReader<R>,
     seekable: Option<fn(&mut StreamBufferedReader<R>, SeekFrom) -> io::Result<u64>>,
 }
 impl<R: Read> View for BufV<R> {
+    fn read3(&mut self, k: usize) -> Option<Result<Vec<u8>, String>> {
+        let mut b = vec![0u8; k];
+        Some(self.r.read_bulk(&mut b).map_err(es).and_then(|n| {
+            if n > k {
+                panic!("returned {n} > {k}");
+            }
+            b.truncate(n);
+            Ok(b)
+        }))
+    }
+    fn peek2(&mut self, k: usize) -> Option<Result<Option<Vec<u8>>, String>> {
+        // ensure_buffered reports how much is buffered; fill_buf then shows exactly that
+        let avail = match self.r.ensure_buffered(k) {
+            Ok(a) => a,
+            Err(e) => return Some(Err(es(e))),
+        };
+        if !self.r.has_data_in_buffer() {
+            if avail != 0 {
+                panic!("ensure_buffered = {avail} but has_data_in_buffer is false");
+            }
+            return Some(Ok(Some(vec![])));
+        }
+        let usage = self.r.buffer_usage();
+        Some(self.r.fill_buf().map_err(es).map(|s| {
+            if s.len() != avail || avail != usage {
+                panic!("ensure_buffered = {avail}, buffer_usage = {usage}, fill_buf shows {}", s.len());
+            }
+            Some(s.to_vec())
+        }))
+    }
+    fn pos(&mut self) -> Option<u64> {
+        // bytes pulled from the inner reader minus bytes still buffered (meaningful without seeks)
+        if self.seekable.is_some() {
+            return None;
+        }
+        Some(self.r.total_read() - self.r.buffer_usage() as u64)
+    }
     fn read(&mut self, k: usize) -> Option<Result<Vec<u8>, String>> {
         Some(rd(&mut self.r, k))
     }
@@ -2243,7 +2668,7 @@ impl<R: Read> View for BufV<R> {
         let mut b = vec![0u8; k];
         Some(self.r.read_simd_optimized(&mut b).map_err(es).and_then(|n| {
             if n > k {
-                return Err(format!("returned {n} > {k}"));
+                panic!("returned {n} > {k}");
             }
             b.truncate(n);
             Ok(b)
@@ -2283,7 +2708,7 @@ impl<R: Read> View for ZcV<R> {
         let mut b = vec![0u8; k];
         Some(self.0.read_optimized(&mut b).map_err(es).and_then(|n| {
             if n > k {
-                return Err(format!("returned {n} > {k}"));
+                panic!("returned {n} > {k}");
             }
             b.truncate(n);
             Ok(b)
@@ -2302,6 +2727,17 @@ impl<R: Read> View for ZcV<R> {
     }
     fn skip(&mut self, k: usize) -> Option<Result<(), String>> {
         Some(self.0.skip_bytes(k).map_err(es))
+    }
+    fn peek2(&mut self, k: usize) -> Option<Result<Option<Vec<u8>>, String>> {
+        // zc_ensure reports how much of the request is available; zc_read of that much must succeed
+        let n = match self.0.zc_ensure(k) {
+            Ok(n) => n,
+            Err(e) => return Some(Err(es(e))),
+        };
+        if n > k || n > self.0.zc_available() {
+            panic!("zc_ensure({k}) = {n}, available {}", self.0.zc_available());
+        }
+        Some(self.0.zc_read(n).map(|o| o.map(|s| s.to_vec())).map_err(es))
     }
     fn skip_err_unspecified(&self) -> bool {
         true
@@ -2338,6 +2774,21 @@ impl View for MmapZcV {
     fn remaining(&mut self) -> Option<u64> {
         Some(self.0.zc_available() as u64)
     }
+    fn peek2(&mut self, k: usize) -> Option<Result<Option<Vec<u8>>, String>> {
+        // the whole remainder (cut to a bounded look-ahead for the log)
+        let s = self.0.remaining_slice();
+        let whole = self.0.as_slice().len();
+        if s.len() + self.0.position() != whole {
+            panic!("remaining_slice + position != as_slice");
+        }
+        Some(Ok(Some(s[..s.len().min(k.max(1) * 2)].to_vec())))
+    }
+    fn vlen(&mut self) -> Option<u64> {
+        Some(if self.0.is_empty() { 0 } else { self.0.len() as u64 })
+    }
+    fn total(&self) -> (bool, bool) {
+        (true, false)
+    }
 }
 struct MmInV(MemoryMappedInput);
 impl View for MmInV {
@@ -2364,6 +2815,88 @@ impl View for MmInV {
     }
     fn remaining(&mut self) -> Option<u64> {
         Some(self.0.remaining() as u64)
+    }
+    fn peek2(&mut self, k: usize) -> Option<Result<Option<Vec<u8>>, String>> {
+        Some(self.0.peek_slice_zero_copy(k).map(|s| Some(s.to_vec())).map_err(es))
+    }
+    fn vlen(&mut self) -> Option<u64> {
+        Some(if self.0.is_empty() { 0 } else { self.0.len() as u64 })
+    }
+    fn total(&self) -> (bool, bool) {
+        (true, false)
+    }
+}
+/// SliceDataInput / MmapDataInput as views of their byte sequence
+struct SliceV(SliceDataInput<'static>);
+impl View for SliceV {
+    fn exact(&mut self, k: usize) -> Option<Result<Option<Vec<u8>>, String>> {
+        let mut b = vec![0u8; k];
+        Some(self.0.read_bytes(&mut b).map(|_| Some(b)).map_err(es))
+    }
+    fn exact2(&mut self, k: usize) -> Option<Result<Option<Vec<u8>>, String>> {
+        Some(self.0.read_vec(k).map(Some).map_err(es))
+    }
+    fn peek2(&mut self, k: usize) -> Option<Result<Option<Vec<u8>>, String>> {
+        let s = self.0.remaining_slice();
+        Some(Ok(Some(s[..s.len().min(k.max(1) * 2)].to_vec())))
+    }
+    fn skip(&mut self, k: usize) -> Option<Result<(), String>> {
+        Some(self.0.skip(k).map_err(es))
+    }
+    fn pos(&mut self) -> Option<u64> {
+        if self.0.pos() % 2 == 0 {
+            DataInput::position(&self.0)
+        } else {
+            Some(self.0.pos() as u64)
+        }
+    }
+    fn remaining(&mut self) -> Option<u64> {
+        Some(self.0.remaining() as u64)
+    }
+    fn at_end(&mut self) -> Option<bool> {
+        let (a, b) = (!self.0.has_more(), self.0.has_remaining() == Some(false));
+        if a != b {
+            panic!("has_more() = {} but has_remaining() = {:?}", !a, self.0.has_remaining());
+        }
+        Some(a)
+    }
+    fn total(&self) -> (bool, bool) {
+        (true, true)
+    }
+}
+struct MmapDiV(MmapDataInput);
+impl View for MmapDiV {
+    fn exact(&mut self, k: usize) -> Option<Result<Option<Vec<u8>>, String>> {
+        let mut b = vec![0u8; k];
+        Some(self.0.read_bytes(&mut b).map(|_| Some(b)).map_err(es))
+    }
+    fn exact2(&mut self, k: usize) -> Option<Result<Option<Vec<u8>>, String>> {
+        Some(self.0.read_vec(k).map(Some).map_err(es))
+    }
+    fn peek2(&mut self, k: usize) -> Option<Result<Option<Vec<u8>>, String>> {
+        let s = self.0.remaining_slice();
+        if s.len() + self.0.pos() != self.0.as_slice().len() {
+            panic!("remaining_slice + pos != as_slice");
+        }
+        Some(Ok(Some(s[..s.len().min(k.max(1) * 2)].to_vec())))
+    }
+    fn skip(&mut self, k: usize) -> Option<Result<(), String>> {
+        Some(self.0.skip(k).map_err(es))
+    }
+    fn pos(&mut self) -> Option<u64> {
+        DataInput::position(&self.0)
+    }
+    fn remaining(&mut self) -> Option<u64> {
+        Some(self.0.remaining() as u64)
+    }
+    fn at_end(&mut self) -> Option<bool> {
+        Some(self.0.has_remaining() == Some(false))
+    }
+    fn total(&self) -> (bool, bool) {
+        (true, true)
+    }
+    fn vlen(&mut self) -> Option<u64> {
+        Some(if self.0.is_empty() { 0 } else { self.0.len() as u64 })
     }
 }
 /// VectoredIO::read_vectored over an inner reader: the k bytes are requested as three buffers;
@@ -2406,6 +2939,16 @@ enum Op {
     Pos,
     Remaining,
     Drain(usize),
+    Read3(usize),
+    Peek2(usize),
+    AtEnd,
+    VLen,
+    Rewind,
+    /// exact read / skip of (what is left + delta) bytes: delta 0 fits exactly, delta 1 must be refused
+    ExactRem(usize),
+    SkipRem(usize),
+    /// skip so that exactly this many bytes are left (if more are left)
+    SkipLeave(usize),
 }
 
 /// run one program on one view; every call is one event
@@ -2436,6 +2979,26 @@ fn run_view(cx: &mut Cx, subject: &str, src: &Src, ranges: &[(usize, usize)], cf
     ops.reverse();
     let mut steps = 0usize;
     while let Some(op) = ops.pop() {
+        let op = match op {
+            Op::ExactRem(d) => {
+                let left = vlen.saturating_sub(dc);
+                // a whole large remainder is skipped rather than logged byte by byte
+                if left + d > 6000 {
+                    Op::Skip(left + d)
+                } else {
+                    Op::Exact(left + d)
+                }
+            }
+            Op::SkipRem(d) => Op::Skip(vlen.saturating_sub(dc) + d),
+            Op::SkipLeave(r) => {
+                let left = vlen.saturating_sub(dc);
+                if left <= r {
+                    continue;
+                }
+                Op::Skip(left - r)
+            }
+            o => o,
+        };
         steps += 1;
         if steps > 4000 {
             break;
@@ -2499,6 +3062,22 @@ fn run_view(cx: &mut Cx, subject: &str, src: &Src, ranges: &[(usize, usize)], cf
                         Err(m) => json!({"op":"readn_refused","api":"seek","k":0,"msg":m}),
                     }
                 }
+                Op::Read3(k) => match v.read3(*k)? {
+                    Ok(got) => json!({"op":"readn","api":"read3","k":k,"got":bytes_json(&got)}),
+                    Err(m) => json!({"op":"readn_refused","api":"read3","k":k,"msg":m}),
+                },
+                Op::Peek2(k) => match v.peek2(*k)? {
+                    Ok(Some(got)) => json!({"op":"peek","api":"peek2","k":(*k).max(got.len()),"got":bytes_json(&got)}),
+                    Ok(None) => json!({"op":"readn_refused","api":"peek2","k":k,"msg":"None"}),
+                    Err(m) => json!({"op":"readn_refused","api":"peek2","k":k,"msg":m}),
+                },
+                Op::Rewind => match v.rewind()? {
+                    Ok(r) => json!({"op":"seek","api":"reset","whence":"start","o":0,"r":r,"t":0}),
+                    Err(m) => json!({"op":"readn_refused","api":"seek","k":0,"msg":m}),
+                },
+                Op::ExactRem(_) | Op::SkipRem(_) | Op::SkipLeave(_) => return None, // expanded above
+                Op::AtEnd => json!({"op":"at_end","r":v.at_end()?}),
+                Op::VLen => json!({"op":"vlen","r":v.vlen()?}),
                 Op::Pos => json!({"op":"pos","r":v.pos()?}),
                 Op::Remaining => json!({"op":"remaining","r":v.remaining()?}),
             })
@@ -2509,7 +3088,14 @@ fn run_view(cx: &mut Cx, subject: &str, src: &Src, ranges: &[(usize, usize)], cf
                 if cap.is_some() {
                     e["overcap"] = json!(overcap);
                 }
-                if let (Some(c), Op::Read2(k) | Op::Exact(k) | Op::Peek(k)) = (cap, &op) {
+                if e["op"] == "readn_refused" {
+                    let (t1, t2) = v.total();
+                    let api = e["api"].as_str().unwrap_or("").to_string();
+                    if (t1 && (api == "exact" || api == "skip")) || (t2 && api == "exact2") {
+                        e["need"] = e["k"].clone();
+                    }
+                }
+                if let (Some(c), Op::Read2(k) | Op::Exact(k) | Op::Peek(k) | Op::Peek2(k)) = (cap, &op) {
                     if *k > c {
                         overcap = true;
                     }
@@ -2610,15 +3196,65 @@ fn random_prog_x(rng: &mut Rng, vlen: usize, sizes: &[usize], steps: usize, seek
             14 => Op::SeekAbs(rng.below(vlen as u64 + 1) as usize),
             15 => Op::Seek("cur", rng.below(7) as i64 - 3),
             16 => Op::Seek("end", -(rng.below(4) as i64)),
-            17 => Op::Pos,
-            18 => Op::Remaining,
-            _ => Op::Read(0),
+            17 => {
+                if rng.chance(1, 2) {
+                    Op::Pos
+                } else {
+                    Op::AtEnd
+                }
+            }
+            18 => {
+                if rng.chance(1, 2) {
+                    Op::Remaining
+                } else {
+                    Op::VLen
+                }
+            }
+            _ => match rng.below(5) {
+                0 => Op::Read(0),
+                4 => Op::Rewind,
+                1 => Op::Read3(k),
+                _ => {
+                    if k > maxreq {
+                        Op::Read3(k)
+                    } else {
+                        Op::Peek2(k)
+                    }
+                }
+            },
         });
+    }
+    // the end of the view: one byte too many must be refused and must not move the cursor,
+    // an exact fit must succeed (on half of the programs; the others drain with reads)
+    p.push(Op::SkipRem(1));
+    p.push(Op::ExactRem(1));
+    p.push(Op::Pos);
+    if rng.chance(1, 2) {
+        // one byte before the end, then at the end: every observer and look-ahead
+        p.push(Op::SkipLeave(1));
+        for o in [Op::AtEnd, Op::Remaining, Op::Peek2(4), Op::Peek(4), Op::Pos] {
+            p.push(o);
+        }
+        p.push(Op::Exact(1));
+        for o in [Op::AtEnd, Op::Remaining, Op::Peek2(2), Op::Peek(2)] {
+            p.push(o);
+        }
+    }
+    if rng.chance(1, 2) {
+        if rng.chance(1, 2) {
+            p.push(Op::ExactRem(0));
+        } else {
+            p.push(Op::SkipRem(0));
+        }
+        p.push(Op::Exact(1));
+        p.push(Op::Skip(1));
     }
     // the final drain never takes more than ~40 reads
     p.push(Op::Drain((*rng.pick(sizes)).max(vlen / 40 + 1)));
     p.push(Op::Pos);
     p.push(Op::Remaining);
+    p.push(Op::AtEnd);
+    p.push(Op::VLen);
     p
 }
 
@@ -2700,9 +3336,23 @@ fn drive_views(cx: &mut Cx, rng0: &Rng) {
                 ranges.push((a, b));
             }
             let r2: Vec<(u64, u64)> = ranges.iter().map(|&(a, b)| (a as u64, b as u64)).collect();
-            let make = move |s: &Src| -> Result<Box<dyn View>, String> { Ok(Box::new(MultiV(MultiRangeReader::new(Cursor::new(s.bytes()), r2.clone())))) };
+            let incremental = run % 2 == 1;
+            let make = move |s: &Src| -> Result<Box<dyn View>, String> {
+                if incremental {
+                    let mut m = MultiRangeReader::new(Cursor::new(s.bytes()), vec![]);
+                    for &(a, b) in &r2 {
+                        m.add_range(a, b);
+                    }
+                    if m.current_range() != r2.first().copied() {
+                        panic!("current_range() is not the first range added");
+                    }
+                    Ok(Box::new(MultiV(m)))
+                } else {
+                    Ok(Box::new(MultiV(MultiRangeReader::new(Cursor::new(s.bytes()), r2.clone()))))
+                }
+            };
             let k = rng.range(1, 9) as usize;
-            let prog = vec![Op::Read(rng.range(0, 5) as usize), Op::Read(k), Op::Drain(rng.range(1, 12) as usize)];
+            let prog = vec![Op::VLen, Op::Read(rng.range(0, 5) as usize), Op::Read(k), Op::Drain(rng.range(1, 12) as usize)];
             run_view(cx, subject, &src, &ranges, json!({"run":run}), &make, &prog);
         }
     }
@@ -2721,7 +3371,7 @@ fn drive_views(cx: &mut Cx, rng0: &Rng) {
                 s.dedup();
                 (s, if thorough { 4 } else { 3 }, 3 * (2 * b + 1) + 9)
             } else {
-                (vec![1, 4095, 4096, 4097, 8192, 9000], 2, if thorough { 40000 } else { 22000 })
+                (vec![1, 4095, 4096, 4097, 8191, 8192, 9000], 2, if thorough { 40000 } else { 24000 })
             };
             let mut progs = all_sequences(&sizes, seqlen, if b <= 8 { sizes[1 % sizes.len()] } else { 9000 }, false);
             if chunked || !thorough {
@@ -2790,7 +3440,7 @@ fn drive_views(cx: &mut Cx, rng0: &Rng) {
             let mut rng = rng0.derive(&subject);
             let chunked = inner == "chunked";
             let (sizes, n): (Vec<usize>, usize) = if c <= 64 {
-                let mut s = vec![1usize, 2, 3, c / 2, c, c + 1, 2 * c + 1];
+                let mut s = vec![1usize, 2, 3, (c / 2).saturating_sub(1), c / 2, c, c + 1, 2 * c + 1];
                 s.retain(|&x| x > 0);
                 s.sort();
                 s.dedup();
@@ -2886,6 +3536,48 @@ fn drive_views(cx: &mut Cx, rng0: &Rng) {
             run_view(cx, subject, &src, &[(0, n)], json!({"cap":c,"chunked":chunked,"run":run}), &make, &prog);
         }
     }
+    // ---- ZeroCopyReader::new (stock 64 KiB buffer) on a large generated stream
+    if cx.a.wants("rd:zerocopy-default") {
+        let subject = "rd:zerocopy-default";
+        let mut rng = rng0.derive(subject);
+        for chunked in [false, true] {
+            let n = 200_000usize;
+            let src = pat_src(&mut rng, n);
+            let make = move |s: &Src| -> Result<Box<dyn View>, String> {
+                if chunked {
+                    Ok(Box::new(ZcV(ZeroCopyReader::new(Chunked { inner: Cursor::new(s.bytes()), m: 20_000 }).map_err(es)?)))
+                } else {
+                    Ok(Box::new(ZcV(ZeroCopyReader::new(Cursor::new(s.bytes())).map_err(es)?)))
+                }
+            };
+            let prog = vec![Op::Read(5), Op::Exact(1000), Op::Peek(3000), Op::Read(32767), Op::Read(32768), Op::Read2(20000), Op::Peek2(4096), Op::Skip(10), Op::Read(40000), Op::Exact(1), Op::Drain(30000)];
+            run_view(cx, subject, &src, &[(0, n)], json!({"cap":65536,"chunked":chunked}), &make, &prog);
+        }
+    }
+    // ---- SliceDataInput / MmapDataInput as views
+    for subject in ["rd:slicedi", "rd:mmapdi-open", "rd:mmapdi-from_file"] {
+        if !cx.a.wants(subject) {
+            continue;
+        }
+        let mut rng = rng0.derive(subject);
+        for run in 0..(if thorough { 30 } else { 8 }) {
+            let n = rng.range(0, 80) as usize;
+            let src = arr_src(&mut rng, n);
+            let path = cx.path("di");
+            let kind = subject.to_string();
+            let make = move |s: &Src| -> Result<Box<dyn View>, String> {
+                Ok(match kind.as_str() {
+                    "rd:slicedi" => Box::new(SliceV(SliceDataInput::new(Box::leak(s.bytes().into_boxed_slice())))),
+                    k => {
+                        std::fs::write(&path, s.bytes()).map_err(es)?;
+                        Box::new(MmapDiV(if k.ends_with("open") { MmapDataInput::open(&path) } else { zipora::io::from_file(&path) }.map_err(es)?))
+                    }
+                })
+            };
+            let prog = random_prog(&mut rng, n, &[1, 2, 3, 7, 16, 40], 14);
+            run_view(cx, subject, &src, &[(0, n)], json!({"run":run}), &make, &prog);
+        }
+    }
     // ---- mmap readers
     for (subject, n, explicit) in [("rd:mmapzc-small", 90usize, true), ("rd:mmapzc-large", 30000, false)] {
         if !cx.a.wants(subject) {
@@ -2905,19 +3597,29 @@ fn drive_views(cx: &mut Cx, rng0: &Rng) {
             run_view(cx, subject, &src, &[(0, n)], json!({"run":run}), &make, &prog);
         }
     }
-    for (subject, n, explicit) in [("rd:mminput-buffered", 100usize, true), ("rd:mminput-buffered4096", 4096, false), ("rd:mminput-mmap", 4097, false), ("rd:mminput-mmap20k", 20000, false), ("rd:mminput-large", 1_200_000, false)] {
+    for (subject, n, explicit) in [("rd:mminput-buffered", 100usize, true), ("rd:mminput-buffered4096", 4096, false), ("rd:mminput-mmap", 4097, false), ("rd:mminput-mmap20k", 20000, false), ("rd:mminput-below1m", 1_048_575, false), ("rd:mminput-at1m", 1_048_576, false), ("rd:mminput-large", 1_200_000, false)] {
         if !cx.a.wants(subject) {
             continue;
         }
         let mut rng = rng0.derive(subject);
-        let runs = if n > 100_000 { 2 } else if thorough { 30 } else { 8 };
+        let runs = if n > 100_000 { if thorough { 10 } else { 4 } } else if thorough { 30 } else { 8 };
         for run in 0..runs {
             let src = if explicit { arr_src(&mut rng, n) } else { pat_src(&mut rng, n) };
             let path = cx.path("mminput");
             let p2 = path.clone();
+            // every constructor x access pattern (the pattern selects madvise / prefetch paths)
+            let ctor = run % 5;
             let make = move |s: &Src| -> Result<Box<dyn View>, String> {
+                use zipora::io::mmap::AccessPattern;
                 std::fs::write(&p2, s.bytes()).map_err(es)?;
-                Ok(Box::new(MmInV(MemoryMappedInput::from_path(&p2).map_err(es)?)))
+                let pat = [AccessPattern::Sequential, AccessPattern::Random, AccessPattern::Mixed, AccessPattern::Unknown][run % 4];
+                Ok(Box::new(MmInV(match ctor {
+                    0 => MemoryMappedInput::from_path(&p2),
+                    1 => MemoryMappedInput::new(File::open(&p2).map_err(es)?),
+                    2 | 3 => MemoryMappedInput::from_path_with_pattern(&p2, pat),
+                    _ => MemoryMappedInput::new_with_pattern(File::open(&p2).map_err(es)?, pat),
+                }
+                .map_err(es)?)))
             };
             let sizes: Vec<usize> = if explicit { vec![1, 2, 3, 7, 16, 40] } else { vec![1, 7, 100, 1000, 4096, 5000] };
             let mut prog = random_prog(&mut rng, n, &sizes, 16);
@@ -2927,7 +3629,7 @@ fn drive_views(cx: &mut Cx, rng0: &Rng) {
                 prog.push(Op::Exact(*rng.pick(&sizes)));
             }
             prog.push(Op::Remaining);
-            run_view(cx, subject, &src, &[(0, n)], json!({"run":run,"strategy":""}), &make, &prog);
+            run_view(cx, subject, &src, &[(0, n)], json!({"run":run,"ctor":ctor,"pattern":run % 4}), &make, &prog);
         }
     }
     // ---- VectoredIO::read_vectored over inner readers that deliver short reads
@@ -2992,6 +3694,24 @@ fn drive_zcbuf(cx: &mut Cx, rng0: &Rng) {
                         }
                         match b.zc_commit(k) {
                             Ok(()) => json!({"op":"extend","api":"zc_write+commit","data":bytes_json(&data)}),
+                            Err(m) => json!({"op":"write_refused","codec":"zc_commit","v":[],"msg":es(m)}),
+                        }
+                    }
+                    3 if k % 2 == 1 => {
+                        // producer: write into writable_slice(), then commit
+                        let avail = b.write_available();
+                        if b.is_full() != (avail == 0) || b.write_position() + avail != b.capacity() || b.read_position() + b.available() != b.write_position() {
+                            panic!("ZeroCopyBuffer observers disagree");
+                        }
+                        let n = k.min(avail);
+                        let data = rng.bytes(n);
+                        let ws = b.writable_slice();
+                        if ws.len() != avail {
+                            panic!("writable_slice().len() = {} but write_available() = {avail}", ws.len());
+                        }
+                        ws[..n].copy_from_slice(&data);
+                        match b.zc_commit(n) {
+                            Ok(()) => json!({"op":"extend","api":"writable_slice+commit","data":bytes_json(&data)}),
                             Err(m) => json!({"op":"write_refused","codec":"zc_commit","v":[],"msg":es(m)}),
                         }
                     }
@@ -3197,6 +3917,163 @@ fn drive_writers(cx: &mut Cx, rng0: &Rng) {
     }
 }
 
+/// repositionable writers (RangeWriter / StreamBufferedWriter as io::Seek, MemoryMappedOutput::seek)
+/// and the stock presets: writes of arbitrary sizes at arbitrary positions inside what was written;
+/// the sink must equal the overwritten image
+fn drive_seek_writers(cx: &mut Cx, rng0: &Rng) {
+    let thorough = cx.a.thorough();
+    for subject in ["wr:seek-range", "wr:seek-buffered", "wr:seek-mmapout", "wr:preset-buffered", "wr:preset-zerocopy"] {
+        if !cx.a.wants(subject) {
+            continue;
+        }
+        let mut rng = rng0.derive(subject);
+        let preset = subject.starts_with("wr:preset");
+        for run in 0..(if preset { 2 } else if thorough { 60 } else { 16 }) {
+            let lo = if subject == "wr:seek-range" { rng.below(9) as usize } else { 0 };
+            let cap: usize = if subject == "wr:seek-range" { rng.range(0, 40) as usize } else { usize::MAX };
+            let capj: i64 = if cap == usize::MAX { -1 } else { cap as i64 };
+            let prefill: Vec<u8> = (0..(lo + if cap == usize::MAX { 0 } else { cap } + 7)).map(|i| 0x80 | (i as u8 & 0x3f)).collect();
+            let b = *rng.pick(&[1usize, 2, 7, 8, 64]);
+            cx.reset(subject, json!({"run":run,"lo":lo,"cap":capj,"b":b}));
+            let path = cx.path("mmo");
+            let r = guard(|| -> Result<(), String> {
+                enum W {
+                    R(RangeWriter<Cursor<Vec<u8>>>),
+                    B(StreamBufferedWriter<Cursor<Vec<u8>>>),
+                    M(MemoryMappedOutput),
+                    PB(StreamBufferedWriter<Vec<u8>>),
+                    PZ(ZeroCopyWriter<Vec<u8>>),
+                }
+                let mut w = match subject {
+                    "wr:seek-range" => W::R(if run % 2 == 0 { RangeWriter::new_and_seek(Cursor::new(prefill.clone()), lo as u64, cap as u64) } else { zipora::io::range::writer(Cursor::new(prefill.clone()), lo as u64, cap as u64) }.map_err(es)?),
+                    "wr:seek-buffered" => W::B(StreamBufferedWriter::with_config(Cursor::new(Vec::new()), sbr_cfg(b, b, if run % 3 == 2 { 4 } else { 8192 }, false)).map_err(es)?),
+                    "wr:seek-mmapout" => W::M(MemoryMappedOutput::create(&path, *rng.pick(&[1usize, 3, 16, 64])).map_err(es)?),
+                    "wr:preset-buffered" => W::PB(StreamBufferedWriter::new(Vec::new()).map_err(es)?),
+                    _ => W::PZ(ZeroCopyWriter::new(Vec::new()).map_err(es)?),
+                };
+                let sizes: Vec<usize> = if preset { vec![1, 100, 8191, 8192, 32767, 32768, 65535, 65536, 65537, 100_000] } else { vec![0, 1, 2, 3, 5, b, b + 1, 2 * b + 1] };
+                let (mut dwp, mut dlen) = (0usize, 0usize); // the driver's idea of position / extent, following the reported values
+                for _ in 0..(if preset { 8 } else { rng.range(2, 12) as usize }) {
+                    let c = rng.below(10);
+                    if c < 5 || preset {
+                        let k = *rng.pick(&sizes);
+                        let data = rng.bytes(k);
+                        let res: io::Result<usize> = match &mut w {
+                            W::R(x) => x.write(&data),
+                            W::B(x) => x.write(&data),
+                            W::M(x) => x.write_slice(&data).map(|_| k).map_err(|e| io::Error::new(io::ErrorKind::Other, e)),
+                            W::PB(x) => x.write(&data),
+                            W::PZ(x) => x.write(&data),
+                        };
+                        match res {
+                            Ok(n) => {
+                                dwp += n.min(k);
+                                dlen = dlen.max(dwp);
+                                let dj = if k > 64 { json!(bytes_json(&data)) } else { bytes_json(&data) };
+                                cx.ev(subject, json!({"op":"accept","data":dj,"r":n,"cap":capj}));
+                            }
+                            Err(e) => cx.ev(subject, json!({"op":"write_refused","codec":"write","v":[],"msg":es(e)})),
+                        }
+                    } else if c < 8 {
+                        // reposition inside what has been written
+                        let (whence, o): (&str, i64) = match (rng.below(3), &w) {
+                            (0, _) => ("start", rng.below(dlen as u64 + 1) as i64),
+                            (1, W::M(_)) => ("start", rng.below(dlen as u64 + 1) as i64),
+                            (1, _) => {
+                                let t = rng.below(dlen as u64 + 1) as i64;
+                                ("cur", t - dwp as i64)
+                            }
+                            (_, W::B(_)) => ("end", -(rng.below(dlen as u64 + 1) as i64)),
+                            _ => ("start", dlen as i64),
+                        };
+                        let res: Result<u64, String> = match &mut w {
+                            W::R(x) => x.seek(sf(whence, o)).map_err(es),
+                            W::B(x) => x.seek(sf(whence, o)).map_err(es),
+                            W::M(x) => x.seek(o as usize).map(|_| x.position() as u64).map_err(es),
+                            _ => unreachable!(),
+                        };
+                        match res {
+                            Ok(r) => {
+                                dwp = (r as usize).min(dlen);
+                                cx.ev(subject, json!({"op":"seekw","whence":whence,"o":o,"r":r}));
+                            }
+                            Err(m) => cx.ev(subject, json!({"op":"write_refused","codec":"seek","v":[],"msg":m})),
+                        }
+                    } else {
+                        match &mut w {
+                            W::R(x) => {
+                                cx.ev(subject, json!({"op":"sink_pos","api":"current_position - start_position","r":x.current_position() - x.start_position()}));
+                                cx.ev(subject, json!({"op":"sink_remaining","api":"remaining","r":x.remaining(),"cap":x.range_length()}));
+                                cx.ev(subject, json!({"op":"sink_remaining","api":"end_position - current_position","r":x.end_position() - x.current_position(),"cap":capj}));
+                                cx.ev(subject, json!({"op":"batch_eq","what":"RangeWriter::is_at_end vs remaining() == 0","batch":x.is_at_end(),"scalar":x.remaining() == 0}));
+                            }
+                            W::M(x) => {
+                                cx.ev(subject, json!({"op":"sink_pos","api":"position","r":x.position()}));
+                                cx.ev(subject, json!({"op":"sink_remaining","api":"remaining vs capacity","r":x.remaining(),"cap":x.capacity()}));
+                            }
+                            W::B(x) => cx.ev(subject, json!({"op":"sink_pos","api":"total_written + buffer_usage (stream_position)","r":x.stream_position().map_err(es)?})),
+                            _ => {}
+                        }
+                    }
+                }
+                let (sink, window): (Vec<u8>, Option<(usize, usize)>) = match w {
+                    W::R(mut x) => {
+                        x.flush().map_err(es)?;
+                        (x.into_inner().into_inner(), Some((lo, lo + dlen)))
+                    }
+                    W::B(mut x) => {
+                        x.flush().map_err(es)?;
+                        (x.into_inner().map_err(es)?.into_inner(), None)
+                    }
+                    W::M(mut x) => {
+                        // truncate() cuts the file at the current position: go to the end of the data first
+                        x.seek(dlen).map_err(es)?;
+                        cx.ev(subject, json!({"op":"seekw","whence":"start","o":dlen,"r":x.position()}));
+                        DataOutput::flush(&mut x).map_err(es)?;
+                        if dlen > 0 {
+                            x.truncate().map_err(es)?;
+                        }
+                        drop(x);
+                        let mut f = std::fs::read(&path).map_err(es)?;
+                        if dlen == 0 {
+                            f.clear(); // nothing was written: the preallocated file is all padding
+                        }
+                        (f, None)
+                    }
+                    W::PB(mut x) => {
+                        x.flush().map_err(es)?;
+                        (x.into_inner().map_err(es)?, None)
+                    }
+                    W::PZ(mut x) => {
+                        x.flush().map_err(es)?;
+                        (x.into_inner().map_err(es)?, None)
+                    }
+                };
+                match window {
+                    None => cx.ev(subject, json!({"op":"sink","got":bytes_json(&sink),"ob":0,"oa":0})),
+                    Some((a, b)) => {
+                        let b = b.min(sink.len());
+                        let mut before = prefill[..a.min(prefill.len())].to_vec();
+                        before.extend_from_slice(&prefill[b.min(prefill.len())..]);
+                        let mut after = sink[..a].to_vec();
+                        after.extend_from_slice(&sink[b..]);
+                        cx.ev(subject, json!({"op":"sink","got":bytes_json(&sink[a..b]),"ob":bytes_json(&before),"oa":bytes_json(&after)}));
+                    }
+                }
+                if dlen > 0 {
+                    cx.case(subject, &format!("{run}"));
+                }
+                Ok(())
+            });
+            match r {
+                Ok(Ok(())) => {}
+                Ok(Err(m)) => cx.ev(subject, json!({"op":"write_refused","codec":"setup/flush","v":[],"msg":m})),
+                Err(m) => cx.ev(subject, json!({"op":"panic","in":"writer","msg":m.chars().take(100).collect::<String>()})),
+            }
+        }
+    }
+}
+
 // ---------------------------------------------------------------- driver
 
 fn drive(a: &Args) {
@@ -3237,7 +4114,7 @@ fn drive(a: &Args) {
     }
     rec(&mut cx, "encseq:auto-u64", &mut |r| auto_items(false, r));
     rec(&mut cx, "encseq:auto-i64", &mut |r| auto_items(true, r));
-    for v in ["single", "global_single", "batch", "global_batch"] {
+    for v in ["single", "global_single", "global_codec_single", "batch", "global_batch"] {
         rec(&mut cx, &format!("simd:{v}"), &mut |r| simd_items(v, r, thorough));
     }
     if a.wants("simd:batch_eq") {
@@ -3273,6 +4150,10 @@ fn drive(a: &Args) {
     for c in ["new", "strict", "flexible", "development"] {
         rec(&mut cx, &format!("ver:serializer-{c}"), &mut |r| versioned_serializer_items(c, r));
     }
+    rec(&mut cx, "ver:migration", &mut |r| migration_items(r));
+    if a.wants("ver:preds") {
+        version_preds(&mut cx);
+    }
     // ---- part 1b: writer x reader back ends
     for &(o, i) in DIO_PAIRS {
         let subject = format!("dio:{o}-{i}");
@@ -3302,6 +4183,7 @@ fn drive(a: &Args) {
     drive_views(&mut cx, &rng0);
     drive_zcbuf(&mut cx, &rng0);
     drive_writers(&mut cx, &rng0);
+    drive_seek_writers(&mut cx, &rng0);
     cx.finish();
 }
 
